@@ -82,6 +82,8 @@ pub struct LinkState {
     pub slow_extra: u64,
     /// the next packet of this class sent on the link is lost (Op::DropNext), not subject to heal
     pub drop_next_class: Option<usize>,
+    /// every packet of this class sent on the link before the given instant is lost (Op::DropClass)
+    pub drop_class_until: Option<(usize, u64)>,
     pub ledger: LinkLedger,
 }
 
@@ -224,6 +226,10 @@ impl NetInner {
         l.slow_until = until;
         l.slow_extra = extra_ms;
     }
+    pub fn drop_class(&mut self, a: Addr, b: Addr, class: usize, len_ms: u64) {
+        let until = now_ms() + len_ms;
+        self.link(a, b).drop_class_until = Some((class, until));
+    }
     pub fn drop_next(&mut self, a: Addr, b: Addr, class: usize) {
         self.link(a, b).drop_next_class = Some(class);
     }
@@ -297,6 +303,11 @@ impl NetInner {
         if l.drop_next_class == Some(class) {
             l.drop_next_class = None;
             dropped = true;
+        }
+        if let Some((c, until)) = l.drop_class_until {
+            if c == class && now < until {
+                dropped = true;
+            }
         }
         if log {
             let desc = match &mm.body {
